@@ -14,7 +14,7 @@ def strip(tr):
     """Events without sequence numbers (what must be equal across forms)."""
     out = []
     for e in tr:
-        d = {k: v for k, v in e.items() if k not in ('n',)}
+        d = {k: v for k, v in e.items() if k not in ('n', 'st')}
         out.append(d)
     return out
 
